@@ -7,4 +7,6 @@ mkdir -p build evidence replays
 ( cd data && sha256sum -c --quiet tzdata.tar.gz.sha256 )
 rm -rf build/zoneinfo && mkdir -p build/zoneinfo && tar xzf data/tzdata.tar.gz -C build/zoneinfo
 ( cd vlib && cargo build --release --offline --bin vcheck )
+( cd vlib && cargo build --profile nochecks --offline --bin vcheck )
+( cd fuzz && cargo +nightly fuzz build -s none --fuzz-dir . )
 echo "setup ok"
